@@ -1,6 +1,6 @@
 (* Extraction of the validation-strategy model (C16): ExtrOcamlBasic only. *)
 From Coq Require Import ZArith List.
 From Coq Require Import ExtrOcamlBasic.
-From VV Require Import Valid.ValidDefs.
-Extraction "valid_model.ml" step run_ops target_q tune_fixed tune_pinned sentinel idents population
+From VV Require Import Base.F64 Valid.ValidDefs Valid.ValidTarget.
+Extraction "valid_model.ml" tsz_f64 step run_ops target_q tune_fixed tune_pinned sentinel idents population
   reshuffles holdout_skip weight weight_sum partition_bidir.
